@@ -73,6 +73,13 @@ def expected_sk_buildTarget : String :=
 /-- `numPending` starts at 1 (the initial target scan), the task queues are buffered channels -/
 def expectedInitFacts : List String := ["pendingParses:make(chanParseTask,10000)", "pendingActions:make(chanTask,1000)", "numPending:1"]
 
+/-- the dependency wait loop: `WaitForBuild`, then the DependencyFailed test; nothing before the wait -/
+def expectedWaitLoop : List String := ["wait", "if dep.State()>=DependencyFailed fail"]
+
+/-- the rank from which a dependency is passed over without waiting, as the extractor read it (`none`: no such test) -/
+def skipOf (o : Option String) : Option Nat :=
+  o.bind fun n => (TS.all.find? (fun x => x.name == n)).map TS.rank
+
 def expectedCasPairs : List (String × String × String) :=
   [("queueResolvedTarget", "Inactive", "Active"), ("queueResolvedTarget", "Semiactive", "Active"),
    ("queueResolvedTarget", "Inactive", "Semiactive"), ("queueTargetAsync", "Active", "Pending")]
